@@ -369,9 +369,13 @@ func main() {
 		"interpreted through explicit generic instantiations; all programs up to the length bound over a reduced target alphabet, plus seed-random longer programs over the full universe; "+
 		"each program is visited once with a recording visitor and once per callback position with a visitor failing there; distinct by program; non-trivial = at least 2 steps after From")
 	defer rec.Finish()
+	// companion oracle: duct.TypeOf itself follows the documented naming scheme on the universe, so distinct
+	// types get distinct names (the AST records duct.TypeOf of the step's type parameters, as C16 states)
 	for k, v := range typeOf {
-		_ = k
-		_ = v
+		rec.Eval("typeof "+k, true)
+		if v != wantName[k] {
+			rec.Violate("C16/typeof/name", fmt.Sprintf("duct.TypeOf of %s is %q, the normalized name is %q", k, v, wantName[k]), caseT{Prog: prog{A: k}, Fail: -1})
+		}
 	}
 	if common.Replay != "" {
 		var c caseT
@@ -444,7 +448,7 @@ func main() {
 				// bias towards slice targets so that nesting can continue
 				s = step{Op: "join", C: universe[r.IntN(len(universe))]}
 				if r.IntN(2) == 0 {
-					s.C = []string{"[]X", "[][]X", "[][][]X", "[]*X", "[]Y", "[]Void"}[r.IntN(6)]
+					s.C = []string{"[]X", "[][]X", "[][][]X", "[]*X", "[]Y", "[]Void", "[]*[]X", "*[]X"}[r.IntN(8)]
 				}
 			case x < 8:
 				s = step{Op: "unit"}
